@@ -16,6 +16,7 @@ func relayProfileC01(tier string) RelayProfile {
 		HeaderChange:   0.1,
 		TsWeird:        0.3,
 		NalKinds:       0.1,
+		TinyVideo:      0.03,
 		BigUnits:       0.15,
 		ZeroLen:        0.03,
 		ShapeAudioOnly: 0.15,
